@@ -9,6 +9,7 @@ import Gotree.Model.C01Lit
     C01.parse  text  outcome  dump(tree)                       (malformed / odd texts: tie only)
     C01.float  literal  class  value  fmt  back                 (strconv against goCodec, and the codec laws on strconv's own output)
     C01.multi  text  outcome-classes  dumps                      (one Parser, Parse() until it fails: tie only)
+    C01.more   text  outcome-classes  dumps                      (one Parser: Parse, then More(), as ReadMultiTrees does: tie only)
     C01.utf8   name-bytes  outcome  reread-name-bytes  text1  text2   (defect F2)
 -/
 namespace Gotree.Driver.C01
@@ -33,7 +34,7 @@ def treeTags (t : T) : List String :=
   let comment := anyNode (fun oe n => !n.d.comments.isEmpty || (edgeP (fun e => !e.comments.isEmpty) oe n)) none t
   let support := anyNode (edgeP fun e => e.sup != NIL) none t
   let nonint := anyNode (edgeP fun e => nonInt e.len || nonInt e.sup || nonInt e.pval) none t
-  tagIf (multif && comment && support && nonint) "nontrivial" ++
+  tagIf (multif && comment && support && nonint) "rule" ++
   tagIf multif "multif" ++ tagIf comment "comment" ++ tagIf support "support" ++ tagIf nonint "nonint" ++
   tagIf t.rooted "rooted" ++ tagIf (!t.rooted) "unrooted" ++
   tagIf (anyNode (edgeP fun e => e.pval != NIL) none t) "pvalue" ++
@@ -59,6 +60,21 @@ def isPrefixStr (p s : String) : Bool := p.toList.isPrefixOf s.toList
 
 def bytesOf (s : String) : Option (List UInt8) := (unescapeBytes s.toList ByteArray.empty).map (·.toList)
 
+/-- a name given as bytes went through write + parse: `where_` says which name -/
+def utf8Case (namee outcome name2e where_ : String) : Verdict :=
+    match bytesOf namee, bytesOf name2e with
+    | some nb, some nb2 =>
+      let valid := (unescape namee).isSome
+      let tags := ["nontrivial-aux", where_] ++ tagIf valid "validutf8" ++ tagIf (!valid) "invalidutf8"
+      if outcome == "ok" && nb == nb2 then ⟨.pass, tags, ""⟩
+      else
+        -- F2: only when the name is not valid UTF-8 and what came back is exactly ReadRune's lossy decoding of it
+        let lossy := (String.ofList (decodeLossy nb)).toUTF8.toList
+        if outcome == "ok" && !valid && nb2 == lossy then
+          ⟨.oracle, tags, "class=F2-invalid-utf8-name name " ++ namee ++ " comes back as " ++ name2e⟩
+        else ⟨.oracle, tags, "name " ++ namee ++ " comes back as " ++ name2e ++ " (" ++ outcome ++ ")"⟩
+    | _, _ => bad "C01.utf8 fields"
+
 def handle (op : String) (f : List String) : Verdict :=
   match op, f with
   | "rt", [dump, text1e, outcome, dump2, text2e] =>
@@ -67,26 +83,41 @@ def handle (op : String) (f : List String) : Verdict :=
       let wf := WF01 goCodec.isFloat isF64 t
       -- the hypothesis of theorem `parse_write_goS` (executable codec, structural domain: all four laws proved)
       let godom := wf && WF01 goCodec.isFloat goDomS t
-      let tags := tagIf wf "wf01" ++ tagIf (!wf) "nonwf" ++ tagIf godom "godom" ++ treeTags t
+      let tt := treeTags t
+      -- `nontrivial` (counted by the evidence) = an ORACLE-BEARING round-trip case satisfying the rule of Appendix C;
+      -- everything else that is not trivial is `nontrivial-aux`
+      let tags := tagIf wf "wf01" ++ tagIf (!wf) "nonwf" ++ tagIf godom "godom" ++
+        tagIf (wf && tt.contains "rule") "nontrivial" ++ tagIf (!wf && tt.contains "rule") "nontrivial-aux" ++ tt
+      -- 1. the oracle, on the implementation's output alone (before anything about the model)
+      if wf && outcome != "ok" then ⟨.oracle, tags, "Parse(Newick(t)) fails: " ++ outcome⟩ else
+      let ot2 := if outcome == "ok" then T.undump dump2 else none
+      if outcome == "ok" && ot2.isNone then bad "C01.rt dump2" else
+      let oracleOK : Bool := match ot2 with
+        | some t2 => roundTripOK t t2 text1 text2
+        | none => true
+      if wf && !oracleOK then
+        ⟨.oracle, tags, (match ot2 with
+            | some t2 => if sameTree t t2 then "second text differs from the first" else "re-read tree differs from the original"
+            | none => "") ++ " text1=" ++ escape text1⟩ else
+      -- 2. the hypothesis of `parse_write_goS` must hold of every WF01 tree of float64 values
       if wf && !godom then ⟨.tie, tags, "a finite float64 value of the tree is outside the domain goDomS of the model codec"⟩ else
-      -- the model
+      -- 3. the model: both machines
       let mtext := writeStr goCodec t
       let mparse := parseStr goCodec text1
-      if outcome != "ok" then
-        -- the implementation could not re-read its own text
-        if wf then ⟨.oracle, tags, "Parse(Newick(t)) fails: " ++ outcome⟩
-        else if mtext != text1 then ⟨.tie, tags, "model text " ++ escape mtext⟩
+      let ml := Lit.parseL goCodec text1.toList
+      let litSame := match mparse, ml with
+        | .ok a, .ok b => a.dump == b.dump
+        | a, b => outcomeClass a == outcomeClass b && outcomeClass a != "ok"
+      if !litSame then ⟨.tie, tags, "literal node-stack machine differs: " ++ outcomeClass ml⟩ else
+      match ot2 with
+      | none =>
+        -- the implementation could not re-read its own text (tree outside WF01)
+        if mtext != text1 then ⟨.tie, tags, "model text " ++ escape mtext⟩
         else if outcomeClass mparse != (if isPrefixStr "panic" outcome then "panic" else outcome) then
           ⟨.tie, tags, "model outcome " ++ outcomeClass mparse⟩
         else ⟨.pass, "rejected" :: tags, ""⟩
-      else
-      match T.undump dump2 with
-      | none => bad "C01.rt dump2"
       | some t2 =>
-        if wf && !(roundTripOK t t2 text1 text2) then
-          ⟨.oracle, tags, (if sameTree t t2 then "second text differs from the first" else "re-read tree differs from the original") ++
-            " text1=" ++ escape text1⟩
-        else if mtext != text1 then ⟨.tie, tags, "model text " ++ escape mtext⟩
+        if mtext != text1 then ⟨.tie, tags, "model text " ++ escape mtext⟩
         else match mparse with
           | .ok mt =>
             if mt.dump != t2.dump then ⟨.tie, tags, "model parse " ++ mt.dump⟩
@@ -108,7 +139,7 @@ def handle (op : String) (f : List String) : Verdict :=
         | .ok a, .ok b => a.dump == b.dump
         | a, b => outcomeClass a == outcomeClass b && mc != "ok"
       if !litSame then ⟨.tie, [mc], "literal node-stack machine differs: " ++ outcomeClass ml⟩ else
-      let tags := [mc] ++ tagIf (text.length > 3 && mc == "ok") "nontrivial"
+      let tags := [mc] ++ tagIf (text.length > 3 && mc == "ok") "nontrivial-aux"
       match m with
       | .unrep _ =>
         -- Go succeeds and stores NaN/±Inf, which the dump shows
@@ -132,7 +163,7 @@ def handle (op : String) (f : List String) : Verdict :=
       let ms := (parseMany goCodec text.toList).take cls.length
       let mcls := ms.map outcomeClass
       let nok := (mcls.filter (· == "ok")).length
-      let tags := ["multi" ++ toString nok] ++ tagIf (nok ≥ 2) "nontrivial"
+      let tags := ["multi" ++ toString nok] ++ tagIf (nok ≥ 2) "nontrivial-aux"
       -- an `unrep` of the model stands for a Go success with a non-finite value: compare up to there
       if mcls.contains "unrep" then
         (if (dumps.splitOn "inf").length > 1 || (dumps.splitOn "nan").length > 1 then ⟨.pass, "unrep" :: tags, ""⟩
@@ -144,12 +175,34 @@ def handle (op : String) (f : List String) : Verdict :=
         match ds.mapM T.undump with
         | none => bad "C01.multi dumps"
         | some ts => if ts.map T.dump == mds then ⟨.pass, tags, ""⟩ else ⟨.tie, tags, "model trees " ++ "|".intercalate mds⟩
-  | "float", [lite, cls, val, fmte, back] =>
-    match unescape lite, unescape fmte with
-    | some lit, some ftext =>
+  | "more", [texte, classes, dumps] =>
+    match unescape texte with
+    | none => bad "C01.more text"
+    | some text =>
+      let cls := if classes == "" then [] else classes.splitOn ","
+      let ds := if dumps == "" then [] else dumps.splitOn "|"
+      -- the model of the ReadMultiTrees loop: Parse, then More, on the same reader (the harness stops after 12 turns)
+      let ms := (parseWhileMore goCodec text.toList).take 12
+      let mcls := ms.map outcomeClass
+      let nok := (mcls.filter (· == "ok")).length
+      let tags := ["more" ++ toString nok] ++ tagIf (nok ≥ 2) "nontrivial-aux"
+      -- an `unrep` of the model stands for a Go success with a non-finite value: compare up to there
+      if mcls.contains "unrep" then
+        (if (dumps.splitOn "inf").length > 1 || (dumps.splitOn "nan").length > 1 then ⟨.pass, "unrep" :: tags, ""⟩
+         else ⟨.tie, tags, "model unrep, implementation " ++ classes⟩)
+      else if mcls != cls.map (fun c => if isPrefixStr "panic" c then "panic" else c) then
+        ⟨.tie, tags, "model outcomes " ++ ",".intercalate mcls⟩
+      else
+        let mds := ms.filterMap fun o => match o with | .ok t => some t.dump | _ => none
+        match ds.mapM T.undump with
+        | none => bad "C01.more dumps"
+        | some ts => if ts.map T.dump == mds then ⟨.pass, tags, ""⟩ else ⟨.tie, tags, "model trees " ++ "|".intercalate mds⟩
+  | "float", [lite, cls, val, fmte, back, fmt2e] =>
+    match unescape lite, unescape fmte, unescape fmt2e with
+    | some lit, some ftext, some ftext2 =>
       let r := goParseFloat lit.toList
       let mcls := match r with | .bad => "bad" | .fin _ => "fin" | .nonfin => "nonfin"
-      let tags := [cls] ++ tagIf (cls == "fin") "nontrivial"
+      let tags := [cls] ++ tagIf (cls == "fin") "nontrivial-aux"
       -- fourth codec law on strconv itself: a literal with a slash is never a float
       if cls != "bad" && lit.toList.any (fun c => c == '/') then ⟨.oracle, tags, "ParseFloat accepts a literal containing '/'"⟩
       else if cls == "fin" then
@@ -159,6 +212,8 @@ def handle (op : String) (f : List String) : Verdict :=
           let ft := ftext.toList
           if ft.isEmpty || !(ft.all numClean) then ⟨.oracle, tags, "FormatFloat text is empty or contains a metacharacter"⟩
           else if b != v then ⟨.oracle, tags, "ParseFloat(FormatFloat(x)) != x"⟩
+          -- … and the text survives too (this is what tells -0.0 from 0, which have the same rational)
+          else if ftext2 != ftext then ⟨.oracle, tags, "FormatFloat(ParseFloat(FormatFloat(x))) != FormatFloat(x)"⟩
           else if mcls != cls then ⟨.tie, tags, "model class " ++ mcls⟩
           else if r != .fin v then ⟨.tie, tags, "model value"⟩
           else if v == 0 && ft == "-0".toList then ⟨.pass, "negzero" :: tags, ""⟩   -- -0.0 has no counterpart in Rat (assumption)
@@ -170,20 +225,13 @@ def handle (op : String) (f : List String) : Verdict :=
         | _, _ => bad "C01.float numbers"
       else if mcls != cls then ⟨.tie, tags, "model class " ++ mcls⟩
       else ⟨.pass, tags, ""⟩
-    | _, _ => bad "C01.float fields"
+    | _, _, _ => bad "C01.float fields"
   | "utf8", [namee, outcome, name2e, _text1e, _text2e] =>
-    match bytesOf namee, bytesOf name2e with
-    | some nb, some nb2 =>
-      let valid := (unescape namee).isSome
-      let tags := ["nontrivial"] ++ tagIf valid "validutf8" ++ tagIf (!valid) "invalidutf8"
-      if outcome == "ok" && nb == nb2 then ⟨.pass, tags, ""⟩
-      else
-        -- F2: only when the name is not valid UTF-8 and what came back is exactly ReadRune's lossy decoding of it
-        let lossy := (String.ofList (decodeLossy nb)).toUTF8.toList
-        if outcome == "ok" && !valid && nb2 == lossy then
-          ⟨.oracle, tags, "class=F2-invalid-utf8-name name " ++ namee ++ " comes back as " ++ name2e⟩
-        else ⟨.oracle, tags, "name " ++ namee ++ " comes back as " ++ name2e ++ " (" ++ outcome ++ ")"⟩
-    | _, _ => bad "C01.utf8 fields"
+    -- the bytes sit in a tip name (`C01.utf8`) …
+    utf8Case namee outcome name2e "tip"
+  | "utf8i", [namee, outcome, name2e, _text1e, _text2e] =>
+    -- … or in the name of an inner node (`C01.utf8i`): a name all the same
+    utf8Case namee outcome name2e "inner"
   | _, _ => bad ("C01: unknown op " ++ op)
 
 end Gotree.Driver.C01
